@@ -502,7 +502,7 @@ def extraction(ck):
             )
             ck.ob("C11.fresh-position", fi, c, ("@fresh", True) in ef[node.id], "the position comes from _find_read_pos/_read_to_buffer_loop with no buffer change in between")
             ck.ob("C11.fresh-position", fi, c, has(g[node.id], "%s is None" % v, False), "the position is known not to be None")
-    ck.floor("C11.fresh-position", n_sites, 4, "_read_from_buffer call sites")
+    ck.floor("C11.fresh-position", n_sites, 2, "_read_from_buffer call sites")
     # _finish_read is called with a position or with everything buffered
     for fi in ck.repo.direct_methods(IO, B):
         for node, c in fi.cfg.find(lambda x: q.is_call(x, "self._finish_read")):
@@ -796,10 +796,24 @@ def fill(ck):
         if v == (0, 1):
             ck.ob("C11.fill-pair", fi, fi.node, ("self._user_read_buffer", True) in f, "a size update without an append happens only in caller-buffer mode (the fd wrote into the buffer itself)", construct="size update without append outside caller-buffer mode")
     # caller-buffer mode: the fd writes after the bytes already there
-    views = fi.cfg.stmt_nodes(lambda m: m.kind == "stmt" and isinstance(m.ast, (ast.Assign, ast.AnnAssign)) and bufvar in q.assigned_paths(m.ast) and has(gf[m.id], "self._user_read_buffer", True))
-    ck.floor("C11.fill-pair", len(views), 1, "caller-buffer views in _read_to_buffer")
-    for m in views:
+    # (statement, expression used in caller-buffer mode): assigned under the mode test, or the matching arm of a
+    # conditional expression `view if self._user_read_buffer else chunk`
+    views = []
+    for m in fi.cfg.stmt_nodes(lambda m: m.kind == "stmt" and isinstance(m.ast, (ast.Assign, ast.AnnAssign)) and bufvar in q.assigned_paths(m.ast)):
         v = m.ast.value
+        if isinstance(v, ast.IfExp):
+            t_ = v.test
+            neg = False
+            while isinstance(t_, ast.UnaryOp) and isinstance(t_.op, ast.Not):
+                t_, neg = t_.operand, not neg
+            if q.dotted(t_) == "self._user_read_buffer":
+                views.append((m, v.orelse if neg else v.body))
+                continue
+        if has(gf[m.id], "self._user_read_buffer", True):
+            views.append((m, v))
+    if not views:
+        raise AnalysisError("_read_to_buffer: cannot see which buffer read_from_fd is given in caller-buffer mode")
+    for m, v in views:
         ok = isinstance(v, ast.Subscript) and isinstance(v.slice, ast.Slice) and q.dotted(v.slice.lower) == "self._read_buffer_size" and v.slice.upper is None and "self._read_buffer" in {q.dotted(x) for x in ast.walk(v.value)}
         ck.ob("C11.fill-pair", fi, m.ast, ok, "in caller-buffer mode the fd reads into the buffer starting at _read_buffer_size (after the bytes already received)")
     # the buffer limit refuses only what exceeds max_buffer_size
